@@ -5,7 +5,7 @@
    ctir.trace <function> <arg>…   → ok n=<events> h=<digest> d=<declassified verdicts> | panic … | stuck
    ctir.check <function>          → true | false      (the label checker on the slice of that function)
 
-   an optional first argument `tape=<int>` is the randomness `io.ReadFull` delivers (the external world)
+   an optional first argument `tape=x<hex>` is the randomness `io.ReadFull` delivers, 32 bytes per read
    values: decimal integers, `[v,v,…]` arrays, `x<hex>` byte arrays (`x` alone: empty) -/
 import SMGo.Model.CTIR
 import SMGo.Gen.CTIRProg
@@ -73,64 +73,32 @@ partial def showVal : Val → String
   | .int n => toString n
   | .arr l => "[" ++ ",".intercalate (l.map showVal) ++ "]"
 
-/-! the external world of the driver: the math/big operations the translated code calls -/
+/-! the external world of the driver: `stdOracle extKinds tape` (SMGo/Model/CTIR.lean), the oracle for
+   which `OracleRel` is proved.  The tape is given by the request prefix `tape=x<hex>`: the k-th 32-byte
+   read of `io.ReadFull` returns bytes 32k … 32k+31 of it (zeros beyond its end). -/
 
-def bytesToNat (l : List Val) : Nat :=
-  l.foldl (fun n v => match v with | .int b => n * 256 + b.toNat | _ => n) 0
+def tapeOf (bytes : List Val) : Nat → Nat → Nat := fun pos i =>
+  match bytes[pos * 32 + i]? with
+  | some (.int b) => b.toNat
+  | _ => 0
 
-partial def natToBytes (n : Nat) : List Val :=
-  let rec go (n : Nat) (acc : List Val) : List Val :=
-    if n = 0 then acc else go (n / 256) (.int (Int.ofNat (n % 256)) :: acc)
-  go n []
-
-def powMod (b e m : Nat) : Nat := Id.run do
-  let mut r := 1 % m
-  let mut b := b % m
-  let mut e := e
-  for _ in [0:600] do
-    if e = 0 then break
-    if e % 2 = 1 then r := r * b % m
-    b := b * b % m
-    e := e / 2
-  return r
-
-def oracle (tape : Option Int) : Oracle := fun name args =>
-  let key := extNames.getD name ""
-  match key, args with
-  | "big.Int.SetBytes", [.arr b] => [.int (Int.ofNat (bytesToNat b))]
-  | "big.Int.Bytes", [.int n] => [.arr (natToBytes n.toNat)]
-  | "big.Int.FillBytes", [.int n, .arr buf] =>
-    let bs := natToBytes n.toNat
-    [.arr (List.replicate (buf.length - bs.length) (.int 0) ++ bs)]
-  | "big.Int.Add", [.int a, .int b] => [.int (a + b)]
-  | "big.Int.Sub", [.int a, .int b] => [.int (a - b)]
-  | "big.Int.Mul", [.int a, .int b] => [.int (a * b)]
-  | "big.Int.Mod", [.int a, .int m] => [.int (a % m)]
-  | "big.Int.Sign", [.int a] => [.int (if a < 0 then -1 else if a = 0 then 0 else 1)]
-  | "big.Int.ModInverse", [.int a, .int m] =>
-    -- the modulus is the prime p of the curve in every translated call: Fermat
-    [.int (Int.ofNat (powMod (a % m).toNat (m.toNat - 2) m.toNat))]
-  | "fmt.Errorf", _ => [.int 1]
-  | "io.ReadFull", [.int r, .int n] =>
-    -- every read returns the n-byte big-endian encoding of the tape (request prefix `tape=<int>`: the
-    -- secret randomness of this world, not an argument of the call) or, without a tape, of the
-    -- integer that stands for the reader
-    let bs := natToBytes (tape.getD r).toNat
-    [.arr (List.replicate (n.toNat - bs.length) (.int 0) ++ bs), .int n, .int 0]
-  | _, _ => []
-
-def fuel : Nat := 100000000
+def fuel : Nat := 30000
 
 def lookupFn (name : String) : Option Nat :=
   (fnNames.zipIdx.find? (fun p => p.1 == name)).map (·.2)
 
 def runFn (name : String) (args : List String) : Option (Option (Ctl × Trace)) :=
-  let (tape, args) : Option Int × List String :=
+  let (tape, args) : List Val × List String :=
     match args with
-    | a :: rest => if a.startsWith "tape=" then ((a.drop 5).toString.toInt?, rest) else (none, args)
-    | [] => (none, [])
+    | a :: rest =>
+      if a.startsWith "tape=" then
+        (match parseArg (a.drop 5).toString with
+         | some (.arr l) => l
+         | _ => [], rest)
+      else ([], args)
+    | [] => ([], [])
   match lookupFn name, args.mapM parseArg with
-  | some g, some vs => some (run (slice prog g) globals (oracle tape) fuel g vs)
+  | some g, some vs => some (run (slice prog g) globals (stdOracle extKinds (tapeOf tape)) fuel g vs)
   | _, _ => none
 
 def showDeclass (t : Trace) : String :=
